@@ -5,7 +5,7 @@ from ..relational import differs, as_z3, is_ok, is_err, pair_same_outcome
 
 ID = 'C20'
 # Engine B on the rewritten description's emitted code (incl. a #[base] field that is not the first field)
-ENGINE_B = {'template': 't_equiv', 'kinds': ['layout_', 'accessor_', 'dispatch_'], 'max_quick': 10, 'max_thorough': 48,
+ENGINE_B = {'template': 't_equiv', 'kinds': ['layout_', 'accessor_', 'dispatch_'], 'max_quick': 10, 'max_thorough': 48, 'pair_bytes': True,
             'fixed': [[8, 8, 16, 8, 8, 0, 0, 0, 1, 0, 0, 0, 0, 0, 1, 0, 0], [8, 8, 16, 8, 16, 0, 0, 0, 0, 1, 0, 0, 1, 0, 1, 0, 0]]}
 EXPLANATION = ('Product template t_equiv builds a description and a rewritten description in one symbolic run: two extern-typed fields with '
                'symbolic sizes and a symbolic gap between them, an optional vftable block, and an enum with a symbolic first value.  The '
@@ -15,8 +15,9 @@ EXPLANATION = ('Product template t_equiv builds a description and a rewritten de
                'implicit one; the module\'s definitions listed in the opposite order.  On every leaf the solver must refute that one '
                'description is accepted and the other rejected, or that both are accepted with different summaries — generated '
                '`_field_<hex offset>` names are compared as symbolic strings.')
-ASSUMPTIONS = ['"byte-identical output" is decided on the semantic summary (everything the backend reads); the backend is a function of that data '
-               '(it never reads the grammar) — checked on the MIR on every run by C19\'s dependency scan',
+ASSUMPTIONS = ['for all descriptions of the family the solver decides identity of the semantic summaries (everything the backend is meant to read); identity of the '
+               'emitted bytes is compared natively, with the real backend, for the sampled witness pairs only (Engine B phase) — a backend that consults '
+               'something outside the summary (e.g. the retained grammar tree) is caught only on those pairs',
                'spelling a number in another base is a parser matter and outside this check']
 
 
